@@ -261,3 +261,39 @@ void bad_alias_rw__acc(fp_t c, const fp_t a, const bn_t b) {
 		}
 	}
 }
+
+/* the zero test and the sign test held in locals */
+void ok_g__fp_inv_lower(fp_t c, const fp_t a) {
+	int zero = fp_is_zero(a);
+	if (zero) {
+		RLC_THROW(ERR_NO_VALID);
+		return;
+	}
+	fp_invm_low(c, a);
+}
+
+void ok_h__fp_exp_basic(fp_t c, const fp_t a, const bn_t b) {
+	fp_t r;
+	int neg;
+
+	if (bn_is_zero(b)) {
+		fp_set_dig(c, 1);
+		return;
+	}
+	fp_null(r);
+	fp_new(r);
+	fp_copy(r, a);
+	for (int i = bn_bits(b) - 2; i >= 0; i--) {
+		fp_sqr(r, r);
+		if (bn_get_bit(b, i)) {
+			fp_mul(r, r, a);
+		}
+	}
+	neg = (bn_sign(b) == RLC_NEG);
+	if (neg) {
+		fp_inv(c, r);
+	} else {
+		fp_copy(c, r);
+	}
+	fp_free(r);
+}
